@@ -12,7 +12,8 @@
    a head-switch batch); [recover] is NewBlockChain's loadLastState/repair on the
    database left behind; [fresh d h] the restarted node.
    The model follows /repo after the repairs dee6410 (block written in one batch),
-   2b21c7f (head switch in one batch), 3eba51b (side chain checks the signature). *)
+   2b21c7f (head switch in one batch), 3eba51b (side chain checks the signature),
+   599b875 (verifyAllSideChainBlocks stores each fork block once it is verified). *)
 From VF.C11 Require Import Model ProofsA ProofsB ProofsC ProofsD ProofsE ProofsF ProofsH ProofsI ProofsJ.
 Local Open Scope N_scope.
 
